@@ -371,7 +371,7 @@ def _valid_text(vkind, out, head=False):
     return "unknown protocol"
 
 
-E2E_PREFIXES = ["/", "/d/", "/a", "/m|", "/x.zip/", "/1/", "/../", "URL:", "/h.html", "/t.tal"]
+E2E_PREFIXES = ["/", "/d/", "/a", "/m|", "/x.zip/", "/1/", "/../", "URL:", "/h.html", "/t.tal", "/%E9", "/\udce9"]
 
 
 def body_e2e(kind: int, pre: int, tail: str) -> bool:
@@ -388,6 +388,8 @@ def body_e2e(kind: int, pre: int, tail: str) -> bool:
     if k in ("http", "http-head", "wap", "gemini", "spartan"):
         if " " in sel or "?" in sel or "#" in sel:
             return True
+        if not sel.isascii():
+            return True  # URL clients percent-encode non-ASCII bytes (see the /%E9 prefix)
     if "\t" in sel or "\r" in sel or "\n" in sel or sel != sel.strip():
         return True
     req, tls, vkind, head = _frame(k, sel if sel.startswith("/") else "/" + sel, "")
@@ -458,10 +460,12 @@ def obligations(tier, seed):
                           bounds="selector = %r + tail, |tail| <= %d (all characters)" % (pre, tl), functions=[hp + ".*"]))
     for ki in (0, 1, 4, 6, 7, 8):
         for pi in range(len(E2E_PREFIXES)):
-            if tier == "quick" and (ki + pi) % 2 == 1:
+            if tier == "quick" and (ki + 2 * pi) % 5 != 0 and (ki, pi) not in ((4, 10), (0, 11), (7, 10)):
+                continue
+            if not E2E_PREFIXES[pi].isascii() and KINDS[ki] in ("http", "http-head", "wap", "gemini", "spartan"):
                 continue
             obs.append(Ob(id="C03.7-e2e[%s,%r]" % (KINDS[ki], E2E_PREFIXES[pi]), body="harness.C03:body_e2e", sig="kind: int, pre: int, tail: str",
-                          pre=["kind == %d" % ki, "pre == %d" % pi, "len(tail) <= %d" % (1 if tier == "quick" else 2), "all(c in 'a./|%' + chr(0) + chr(92) + chr(0xdce9) for c in tail)"], timeout=300 if tier == "quick" else 1200,
+                          pre=["kind == %d" % ki, "pre == %d" % pi, "len(tail) <= %d" % (1 if tier == "quick" else 2), "all(c in 'a./|%' + chr(0) + chr(92) for c in tail)"], timeout=300 if tier == "quick" else 1200,
                           desc="whole request `%s` frame with selector %r + symbolic tail through real detection, protocol and handler chain over the in-memory site: one well-formed response, nothing escapes, no access outside the root"
                                % (KINDS[ki], E2E_PREFIXES[pi]),
                           bounds="selector = %r + tail, |tail| <= %d over {a . / | %% NUL \\}" % (E2E_PREFIXES[pi], 1 if tier == "quick" else 2),
